@@ -41,7 +41,9 @@ impl Visitor for Recorder {
         self.events.push(format!("file:{}", f.relative_path));
     }
     fn visit_module(&mut self, m: &Module) {
-        self.events.push(format!("module:{}", m.nested_module_identifier()));
+        // the declaration of THIS file: told apart from other declarations of the same module by its attributes
+        let attrs: Vec<String> = m.attributes().iter().map(|a| a.kind.directive().to_string()).collect();
+        self.events.push(format!("module:{}[{}]", m.nested_module_identifier(), attrs.join(",")));
     }
     fn visit_struct(&mut self, x: &Struct) {
         self.events.push(format!("struct:{}", x.parser_scoped_identifier()));
@@ -99,7 +101,10 @@ fn expect(n: &Node, scope: &str, r: &crate::model::print::Rendered, out: &mut Ve
     let scoped = if scope.is_empty() { id.to_string() } else { format!("{scope}::{id}") };
     let ev = |s: String| Ev { text: s, optional: false };
     match n.kind {
-        "module" => out.push(ev(format!("module:{id}"))),
+        "module" => {
+            let attrs: Vec<&str> = n.children.iter().filter(|c| c.kind == "attr").filter_map(|c| c.get("directive")).collect();
+            out.push(ev(format!("module:{id}[{}]", attrs.join(","))))
+        }
         "struct" | "interface" | "enum" | "custom" | "alias" | "operation" | "field" | "enumerator" => {
             out.push(ev(format!("{}:{}", n.kind, scoped)));
             for c in &n.children {
